@@ -1,0 +1,220 @@
+//! C11 hooks: KKT assembly with all index maps as plain vectors, a directly driven
+//! `DirectLDLKKTSolver` (scaling update -> KKT update -> snapshot), accessors on a live solver.
+#![allow(non_snake_case)]
+#![allow(dead_code)]
+
+use crate::algebra::*;
+use crate::solver::core::cones::*;
+use crate::solver::core::kktsolvers::direct::DirectLDLKKTSolver;
+use crate::solver::core::kktsolvers::KKTSolver;
+use crate::solver::core::ScalingStrategy;
+use crate::solver::implementations::default::DefaultSettings;
+
+/// what a cone says about its own representation in the KKT system
+#[derive(Debug, Clone)]
+pub struct ConeInfo {
+    /// 0 zero, 1 nonnegative, 2 second-order, 3 exponential, 4 power, 5 generalised power, 6 psd
+    pub kind: u8,
+    pub numel: usize,
+    pub hs_is_diagonal: bool,
+    pub sparse_expandable: bool,
+    /// generalised power cone only: (dim1, dim2)
+    pub dims: (usize, usize),
+}
+
+#[derive(Debug, Clone)]
+pub enum SparseMap {
+    Soc { u: Vec<usize>, v: Vec<usize>, D: Vec<usize> },
+    GenPow { p: Vec<usize>, q: Vec<usize>, r: Vec<usize>, D: Vec<usize> },
+}
+
+#[derive(Debug, Clone)]
+pub struct Maps {
+    pub P: Vec<usize>,
+    pub A: Vec<usize>,
+    pub Hsblocks: Vec<usize>,
+    pub sparse: Vec<SparseMap>,
+    pub diagP: Vec<usize>,
+    pub diag_full: Vec<usize>,
+}
+
+pub struct Assembly {
+    pub K: CscMatrix<f64>,
+    pub maps: Maps,
+    pub dsigns: Vec<i8>,
+    pub cones: Vec<ConeInfo>,
+}
+
+fn plain_maps(map: &crate::solver::core::kktsolvers::direct::VerifLDLDataMap) -> Maps {
+    use crate::solver::core::kktsolvers::direct::VerifSparseExpansionMap as SM;
+    Maps {
+        P: map.P.clone(),
+        A: map.A.clone(),
+        Hsblocks: map.Hsblocks.clone(),
+        sparse: map
+            .sparse_maps
+            .iter()
+            .map(|sm| match sm {
+                SM::SOCExpansionMap(s) => SparseMap::Soc {
+                    u: s.u.clone(),
+                    v: s.v.clone(),
+                    D: s.D.to_vec(),
+                },
+                SM::GenPowExpansionMap(g) => SparseMap::GenPow {
+                    p: g.p.clone(),
+                    q: g.q.clone(),
+                    r: g.r.clone(),
+                    D: g.D.to_vec(),
+                },
+            })
+            .collect(),
+        diagP: map.diagP.clone(),
+        diag_full: map.diag_full.clone(),
+    }
+}
+
+pub fn cone_infos(cones: &CompositeCone<f64>) -> Vec<ConeInfo> {
+    cones
+        .iter()
+        .map(|c| {
+            let (kind, dims) = match c {
+                SupportedCone::ZeroCone(_) => (0, (0, 0)),
+                SupportedCone::NonnegativeCone(_) => (1, (0, 0)),
+                SupportedCone::SecondOrderCone(_) => (2, (0, 0)),
+                SupportedCone::ExponentialCone(_) => (3, (0, 0)),
+                SupportedCone::PowerCone(_) => (4, (0, 0)),
+                SupportedCone::GenPowerCone(g) => (5, (g.dim1(), g.dim2())),
+                #[cfg(feature = "sdp")]
+                SupportedCone::PSDTriangleCone(_) => (6, (0, 0)),
+            };
+            ConeInfo {
+                kind,
+                numel: c.numel(),
+                hs_is_diagonal: c.Hs_is_diagonal(),
+                sparse_expandable: c.is_sparse_expandable(),
+                dims,
+            }
+        })
+        .collect()
+}
+
+/// assemble the KKT matrix for (P, A, cones) in the requested triangle
+pub fn assemble(
+    P: &CscMatrix<f64>,
+    A: &CscMatrix<f64>,
+    cones: &[SupportedConeT<f64>],
+    tril: bool,
+) -> Assembly {
+    let cc = CompositeCone::<f64>::new(cones);
+    let shape = if tril { MatrixTriangle::Tril } else { MatrixTriangle::Triu };
+    let (K, map) = crate::solver::core::kktsolvers::direct::verif_assemble(P, A, &cc, shape);
+    let (m, n) = A.size();
+    let dsigns = crate::solver::core::kktsolvers::direct::verif_fill_signs(m, n, &map);
+    Assembly {
+        K,
+        maps: plain_maps(&map),
+        dsigns,
+        cones: cone_infos(&cc),
+    }
+}
+
+/// the state of a `DirectLDLKKTSolver` that C11 talks about
+pub struct Snapshot {
+    pub K: CscMatrix<f64>,
+    pub maps: Maps,
+    pub dsigns: Vec<i8>,
+    pub dims: (usize, usize, usize),
+    /// static regulariser used by the last update
+    pub eps: f64,
+    /// (values of the backend's permuted copy, map KKT entry -> entry of the copy)
+    pub ldl_copy: Option<(Vec<f64>, Vec<usize>)>,
+}
+
+pub fn snapshot(k: &DirectLDLKKTSolver<f64>) -> Snapshot {
+    Snapshot {
+        K: k.verif_KKT().clone(),
+        maps: plain_maps(k.verif_map()),
+        dsigns: k.verif_dsigns().to_vec(),
+        dims: k.verif_dims(),
+        eps: k.verif_regularizer(),
+        ldl_copy: k.verif_ldl_copy(),
+    }
+}
+
+/// A `DirectLDLKKTSolver` together with its cones, driven by the harness
+pub struct Driven {
+    pub cones: CompositeCone<f64>,
+    pub kkt: DirectLDLKKTSolver<f64>,
+    pub settings: DefaultSettings<f64>,
+}
+
+impl Driven {
+    pub fn new(
+        P: &CscMatrix<f64>,
+        A: &CscMatrix<f64>,
+        cones: &[SupportedConeT<f64>],
+        settings: DefaultSettings<f64>,
+    ) -> Self {
+        let cc = CompositeCone::<f64>::new(cones);
+        let (m, n) = A.size();
+        let kkt = DirectLDLKKTSolver::<f64>::new(P, A, &cc, m, n, &settings);
+        Driven { cones: cc, kkt, settings }
+    }
+    /// cone scaling update at (s, z, mu); `dual` selects the dual scaling strategy
+    pub fn update_scaling(&mut self, s: &[f64], z: &[f64], mu: f64, dual: bool) -> bool {
+        let strat = if dual { ScalingStrategy::Dual } else { ScalingStrategy::PrimalDual };
+        self.cones.update_scaling(s, z, mu, strat)
+    }
+    pub fn unit_initialization(&self, z: &mut [f64], s: &mut [f64]) {
+        self.cones.unit_initialization(z, s);
+    }
+    pub fn set_identity_scaling(&mut self) {
+        self.cones.set_identity_scaling();
+    }
+    /// KKTSolver::update (writes -Hs, sparse expansions, regularise, refactor, restore)
+    pub fn kkt_update(&mut self) -> bool {
+        self.kkt.update(&self.cones, &self.settings)
+    }
+    pub fn snapshot(&self) -> Snapshot {
+        snapshot(&self.kkt)
+    }
+    pub fn cone_infos(&self) -> Vec<ConeInfo> {
+        cone_infos(&self.cones)
+    }
+    pub fn get_Hs(&self) -> Vec<f64> {
+        let n = self.cones.rng_blocks.last().map(|r| r.end).unwrap_or(0);
+        let mut h = vec![0.0; n];
+        self.cones.get_Hs(&mut h);
+        h
+    }
+    pub fn mul_Hs(&mut self, x: &[f64]) -> Vec<f64> {
+        let mut y = vec![0.0; x.len()];
+        let mut w = vec![0.0; x.len()];
+        self.cones.mul_Hs(&mut y, x, &mut w);
+        y
+    }
+}
+
+/// the same observables for a live solver (state left by the last iteration)
+pub fn live_snapshot(solver: &crate::solver::DefaultSolver<f64>) -> Option<Snapshot> {
+    solver.kktsystem.verif_direct().map(snapshot)
+}
+pub fn live_cone_infos(solver: &crate::solver::DefaultSolver<f64>) -> Vec<ConeInfo> {
+    cone_infos(&solver.cones)
+}
+pub fn live_get_Hs(solver: &crate::solver::DefaultSolver<f64>) -> Vec<f64> {
+    let n = solver.cones.rng_blocks.last().map(|r| r.end).unwrap_or(0);
+    let mut h = vec![0.0; n];
+    solver.cones.get_Hs(&mut h);
+    h
+}
+pub fn live_mul_Hs(solver: &mut crate::solver::DefaultSolver<f64>, x: &[f64]) -> Vec<f64> {
+    let mut y = vec![0.0; x.len()];
+    let mut w = vec![0.0; x.len()];
+    solver.cones.mul_Hs(&mut y, x, &mut w);
+    y
+}
+/// the (equilibrated) data the KKT matrix was assembled from
+pub fn live_data(solver: &crate::solver::DefaultSolver<f64>) -> (CscMatrix<f64>, CscMatrix<f64>) {
+    (solver.data.P.clone(), solver.data.A.clone())
+}
